@@ -42,7 +42,8 @@ class Contract:
         self.replay = kw.pop("replay", None)
         self.externals = kw.pop("externals", {})
         self.opts = kw.pop("opts", {})
-        self.init = kw.pop("init", {})  # field -> defining expression (class invariant given as an equation)
+        self.init = kw.pop("init", {})
+        self.use_lemmas = kw.pop("use_lemmas", [])  # [(lemma name, {lemma var: expression in this function's entry state})]  # field -> defining expression (class invariant given as an equation)
         if kw:
             raise TypeError("unknown contract keys %r" % list(kw))
 
@@ -243,6 +244,8 @@ class World:
     def lookup_name(self, eng, fr, n):
         if n == "S":
             return VModule("spec")
+        if n == "G":
+            return VModule("__globals__")
         if n == "ghost":
             gv = getattr(fr, "ghostview", None)
             o = VObj("Ghost", name="ghost")
@@ -308,6 +311,14 @@ class World:
 
     def module_attr(self, eng, mod, attr, fr):
         name = mod.name
+        if name == "__globals__":
+            for k in eng.global_types:
+                if ":" in k and k.split(":")[1] == attr:
+                    return self.get_global(eng, k.split(":")[0], attr)
+            rf = fr.module if fr is not None else None
+            if rf in self.repo.modassigns and attr in self.repo.modassigns[rf]:
+                return self.get_global(eng, rf, attr)
+            raise OutOfSubset("G.%s: global not declared in the contract's globals" % attr)
         if name == "spec":
             if attr in self.specfuncs:
                 return VFunc(fi=self.specfuncs[attr])
@@ -665,13 +676,24 @@ class World:
                         eng.assume(eng.truth(eng.eval_str(cl, fr2)))
                     raise Raised(excv, getattr(node, "lineno", None))
             self.havoc_modifies(eng, c, fr, fi)
-            res = self.fresh_result(eng, c, fi)
-            fr.locals["result"] = res
             fr.old = oldfr
+            res = None
+            ens = list(c.ensures)
+            if ens:
+                t0 = self.parse_expr(ens[0])
+                if (isinstance(t0, ast.Compare) and len(t0.ops) == 1 and isinstance(t0.ops[0], ast.Eq)
+                        and isinstance(t0.left, ast.Name) and t0.left.id == "result" and c.returns in ("str", "int", "bool", "bytes")):
+                    # definitional result:  result == <expr>
+                    res = eng.eval_merged(lambda: eng.force(eng.eval(t0.comparators[0], fr)))
+                    ens = ens[1:]
+            if res is None:
+                res = self.fresh_result(eng, c, fi)
+                ens = list(c.ensures)
+            fr.locals["result"] = res
             defined = set()
             if c.ensures_assumed:
                 eng.assumptions_used.add("caller-visible ghost definition of %s: %s" % (fi.qualname, "; ".join(c.ensures_assumed)))
-            for cl in c.ensures + c.ensures_assumed:
+            for cl in ens + c.ensures_assumed:
                 tree = self.parse_expr(cl)
                 guard = None
                 if (isinstance(tree, ast.Call) and isinstance(tree.func, ast.Name) and tree.func.id == "implies"
@@ -819,6 +841,16 @@ class World:
             return False
         raise OutOfSubset("isinstance(%r, %s)" % (v, n))
 
+    def use_lemma(self, eng, lname, binds, fr):
+        """Instantiate a lemma (itself an obligation of the same run) at the given terms."""
+        lem = self.lemmas[lname]
+        locs = {k: eng.eval_str(v, fr) for k, v in binds.items()}
+        lf = Frame(None, None, locs, "spec/specs.py")
+        hyps = [eng.eval_merged(lambda h=h: eng.truth(eng.eval_str(h, lf))) for h in lem.hyp]
+        goals = [eng.eval_merged(lambda g=g: eng.truth(eng.eval_str(g, lf))) for g in lem.goal]
+        eng.assume(z3.Implies(z3.And(*[zbool(h) for h in hyps]) if hyps else z3.BoolVal(True), z3.And(*[zbool(g) for g in goals])))
+        eng.lemmas_used.add(lname)
+
     # ---- verification of one target ----------------------------------------------------
     def verify_target(self, c, selfcls, label=None, extra_ensures=None, canary=False):
         fi = self.repo.get(c.qualname)
@@ -873,6 +905,8 @@ class World:
                 tgt.fields[attr] = eng.eval_str(expr, fr)
             for r in c.requires:
                 eng.assume(eng.eval_merged(lambda r=r: eng.truth(eng.eval_str(r, fr))))
+            for lname, binds in c.use_lemmas:
+                world.use_lemma(eng, lname, binds, fr)
             # pre-state snapshot
             oldfr = Frame(fi, fr.selfcls, snapshot(locs), fi.relfile)
             oldfr.contract = c
